@@ -264,6 +264,10 @@ void assumptions()
     "the relative step (x max(1,|x_j|) for vector/scalar coordinates), is at most 1.5 x max(1, largest first derivative) of the differentiated "
     "columns (DESIGN C08 'Premise handling'); argument restoration, value, shapes and K=1 accuracy are judged on every point");
   mc::assumption(
+    "C08: compile-time budget: 26 (function, argument-type tuple) members are instantiated (see checks/C08/t*.cpp); dr<K,Analytic> is called "
+    "without index sequence only (the subset wrapper has no jacobian()); dr<K> on a functor with derivatives likewise; dr<K> on a plain functor "
+    "with index subsets only for the all-mutable and all-const reference masks");
+  mc::assumption(
     "C08: Hessian convention H(c0, i*nx + c1) = d/dx_c1 [J(i,c0)] (derivative of the right-Jacobian, perturbation c1 applied first), the convention of "
     "d2r_exp in the library and of mc/ref.hpp");
 }
